@@ -934,7 +934,7 @@ class FnLower:
                     ai = self.abs_indexed(x, env, mark=False)
                     if ai is not None and ai[0] not in acc: acc.append(ai[0])
                     ex = self.extern_of(x, env)
-                    if ex is not None and (ex[0]["binder"], self.EXTERN_TY) not in acc: acc.append((ex[0]["binder"], self.EXTERN_TY))
+                    if ex is not None and (ex[0]["binder"], self.ext_ty(ex[0])) not in acc: acc.append((ex[0]["binder"], self.ext_ty(ex[0])))
                 except Unsupported: pass
             for y in x:
                 if isinstance(y, (tuple, list)): self.abs_in(y, env, acc)
@@ -984,7 +984,19 @@ class FnLower:
                 if ent.get("mcall") == e[2]:
                     ix = tab_index(e[1], ent)
                     if ix is not None: return (ent, ix, e[3][0], True)
+        if e[0] == "mcall" and len(e[3]) == 2:
+            # phase 4f: `<accessor chain>.method(&input, &mut output)` on an object the translator does not model (a `BaseConverter` field of
+            # `RNSTool`): an abstract FUNCTION input `F : List Nat -> List Nat -> R (List Nat)` (input, old output |-> new output)
+            rc = None
+            try: rc = self.canon(e[1], env)
+            except Exception: rc = None
+            if rc is not None:
+                for ent in exts:
+                    if ent.get("rcall") == f"{rc}.{e[2]}": return (ent, None, (e[3][0], e[3][1]), "rcall")
         return None
+
+    RCALL_TY = "List Nat → List Nat → R (List Nat)"
+    def ext_ty(self, ent): return self.RCALL_TY if "rcall" in ent else self.EXTERN_TY
 
     def ex_m(self, e, env, ops):
         k = e[0]
@@ -1585,6 +1597,15 @@ class FnLower:
     def extern_call(self, exn, env, ops):
         ent, ixe, data, recv_first = exn
         cell = {}
+        if recv_first == "rcall":                        # phase 4f: `recv.method(&input, &mut output)`; arguments in evaluation order
+            def th_in(): return self.list_arg(data[0], env, ops, f"extern {ent['binder']}")
+            def th_out():
+                v, name, wb = self.mlist_arg(data[1], env, ops, f"extern {ent['binder']}"); cell["x"] = (name, wb); return v
+            iv, ov = self.seq([th_in, th_out], ops)
+            self.extern_used.add(ent["binder"])
+            ops.append(("bind", cell["x"][0], f"{ent['binder']} {iv.atom} {ov.atom}")); self.monadic_used = True
+            cell["x"][1]()
+            return ("v", Val("()", "unit"))
         def th_ix(): return self.word(self.ex(ixe, env, ops), "table index")
         def th_data():
             v, name, wb = self.mlist_arg(data, env, ops, f"extern {ent['binder']}"); cell["x"] = (name, wb); return v
@@ -2604,7 +2625,7 @@ class FnTranslate(FnLower2):
             if ent is not None: self.binders.append(f"({ent[0]} : {ent[1]})")
         seen_ext = []
         for ent in self.opts.get("extern", []):          # abstract FUNCTION inputs (phase 4), after the accessor inputs
-            if ent["binder"] not in seen_ext: seen_ext.append(ent["binder"]); self.binders.append(f"({ent['binder']} : {self.EXTERN_TY})")
+            if ent["binder"] not in seen_ext: seen_ext.append(ent["binder"]); self.binders.append(f"({ent['binder']} : {self.ext_ty(ent)})")
         rt = self.rty(fn["ret"])
         if rt == ("tuple", []): ret = "unit"
         elif rt[0] == "name" and rt[1] in ("u64", "usize", "u8", "bool", "u32"): ret = rt[1]
@@ -3258,6 +3279,10 @@ TABLE_RNS = [
                   ("self.ibase.inv_punctured_prod_mod_base()[#]", "invPunct", "List MulOperand"),
                   ("self.ibase.base_at(#)", "ibase", "List Modulus"), ("self.obase.base_at(#)", "obase", "List Modulus"),
                   ("self.base_change_matrix[#]", "matrix", "List (List Nat)")]},
+    {"file": UR, "fn": "fast_floor", "impl": "RNSTool", "model": "RNSTool.fastFloor", "nested_loops": True,
+     "abstract": [("self.base_q.len()", "qSize", "Nat"), ("self.base_Bsk.len()", "bskSize", "Nat"), ("self.coeff_count", "coeffCount", "Nat"),
+                  ("self.base_Bsk.base_at(#)", "baseBsk", "List Modulus"), ("self.inv_prod_q_mod_Bsk[#]", "invProdQModBsk", "List MulOperand")],
+     "extern": [{"rcall": "self.base_q_to_Bsk_conv.fast_convert_array", "binder": "qToBskF"}]},
 ]
 PRELUDE_RNS = """/-- bounds-checked reads of the list inputs that stand for `Vec<Modulus>` / `Vec<MultiplyU64ModOperand>` fields -/
 def idxMod (l : List Modulus) (i : Nat) : R Modulus := match l[i]? with | some x => .ok x | none => .error .oob
